@@ -2,7 +2,8 @@
    Only statements, closed by `exact`, with Print Assumptions; proofs live in Proofs/. *)
 From Coq Require Import String.
 From Coq Require Import ZArith List Bool.
-From LasV Require Import Lib.Base Lib.BaseFacts Lib.Layout Gen.GenGlobalEncoding Gen.GenHeaderLayout Model.GlobalEnc Proofs.GlobalEncProofs.
+From LasV Require Import Lib.Base Lib.BaseFacts Lib.Layout Gen.GenGlobalEncoding Gen.GenHeaderLayout Model.GlobalEnc Proofs.GlobalEncProofs
+  Model.GlobalEncPy Proofs.GlobalEncPyProofs.
 Import ListNotations.
 Open Scope Z_scope.
 
@@ -36,6 +37,37 @@ Theorem C20_history_other_bits : forall v ops n, 0 <= v < 65536 -> ops_ok ops ->
 Proof. exact ge_run_other_bits. Qed.
 Print Assumptions C20_history_other_bits.
 
+(* the assigned object in any representation (Python bool / int, GpsTimeType member, numpy bool_, numpy int8..uint64, 0-d array):
+   the flag reads back the truth value of the object, no other bit moves, the field stays a 16-bit integer *)
+Theorem C20_flag_any_value : forall v i x, 0 <= v < 65536 -> (i < 5)%nat -> target_ok i x = true ->
+  ge_get i (ge_set_py i v x) = truthy x
+  /\ Z.land (Z.lxor (ge_set_py i v x) v) (Z.lnot (ge_mask i)) = 0
+  /\ 0 <= ge_set_py i v x < 65536.
+Proof. exact ge_set_py_sound. Qed.
+Print Assumptions C20_flag_any_value.
+
+(* objects holding the same integer give the same field: the representation (numpy or not) cannot matter *)
+Theorem C20_value_representation : forall i v x y, pv_int x = pv_int y -> ge_set_py i v x = ge_set_py i v y.
+Proof. exact ge_set_py_repr. Qed.
+Print Assumptions C20_value_representation.
+
+(* also for an illegal GPS time type (2, -1, 255: the code keeps bit 0 of the integer) nothing but the flag's own bit moves *)
+Theorem C20_any_value_other_bits : forall v i x n, 0 <= v < 65536 -> (i < 5)%nat -> 0 <= n ->
+  Z.testbit (ge_mask i) n = false -> Z.testbit (ge_set_py i v x) n = Z.testbit v n.
+Proof. exact ge_set_py_other_bits. Qed.
+Print Assumptions C20_any_value_other_bits.
+
+Theorem C20_history_any_values : forall v ops i, 0 <= v < 65536 -> ops_ok_py ops -> (i < 5)%nat ->
+  ge_get i (ge_run_py v ops) = match last_assign_py i ops None with Some x => truthy x | None => ge_get i v end.
+Proof. exact ge_run_py_flags. Qed.
+Print Assumptions C20_history_any_values.
+
+Theorem C20_history_any_values_other_bits : forall v ops n, 0 <= v < 65536 -> ops_ok_py ops -> 0 <= n ->
+  (forall i, (i < 5)%nat -> Z.testbit (ge_mask i) n = false) ->
+  Z.testbit (ge_run_py v ops) n = Z.testbit v n.
+Proof. exact ge_run_py_other_bits. Qed.
+Print Assumptions C20_history_any_values_other_bits.
+
 Theorem C20_masks : ge_masks_ok = true.
 Proof. exact ge_masks_ok_true. Qed.
 Print Assumptions C20_masks.
@@ -57,5 +89,7 @@ Print Assumptions C20_field_roundtrip.
 (* non-vacuity: a concrete non-trivial state meets the hypotheses and exercises both directions *)
 Example C20_nonvacuous :
   ge_run 0xABCD [(4%nat, false); (0%nat, true); (4%nat, true); (1%nat, false)] = 0xABDD
-  /\ ops_ok [(4%nat, false); (0%nat, true)].
-Proof. split; [vm_compute; reflexivity | repeat constructor]. Qed.
+  /\ ops_ok [(4%nat, false); (0%nat, true)]
+  /\ ge_run_py 0xFFFF [(4%nat, mkPV KNpBool 0); (0%nat, mkPV (KNp0d (KNpInt false 8)) 0); (3%nat, mkPV (KNpInt true 1) (-128))] = 0xFFEE
+  /\ target_ok 3 (mkPV (KNpInt true 1) (-128)) = true /\ target_ok 0 (mkPV KPyInt 2) = false.
+Proof. split; [vm_compute; reflexivity | split; [repeat constructor | vm_compute; repeat split; reflexivity]]. Qed.
